@@ -63,6 +63,7 @@ def gate (j : Json) : Except String Json := do
   | "cubicSingle" => .ok (ofMat (cubicSingle k (rr 0, rr 1, gg 0)))
   | "cubicGenerator" => .ok (ofMat (cubicGenerator (gg 0) (gg 1) (gg 2)))
   | "quarticGenerator" => .ok (ofMat (quarticGenerator (gg 0) (gg 1) (gg 2)))
+  | "doubleExcitationGenerator" => .ok (ofMat doubleExcitationGenerator)
   | s => .error s!"unknown gate {s}"
 
 def occ (j : Json) : Except String Json := do
@@ -137,6 +138,7 @@ def handle (op : String) (j : Json) : Option (Except String Json) :=
   | "c14.ffft" => some (ffft j)
   | "c14.ffftexp" => some (ffftExp j)
   | "c14.ffftsim" => some (ffftSimH j)
+  | "c14.ffftsimcyc" => some (do .ok (J.ofList (J.ofList J.ofIntList) (ffftSimCyc (← J.nat (← J.field j "n")))))
   | "c14.slaterschedule" => some (slaterSchedule j)
   | _ => none
 
